@@ -146,7 +146,8 @@ def run_a(case):
             again = oracle.outcome(fn, codec.decode(vs))
             if again[0] == "ok":
                 second, _ = snapshot(oracle.plain(again[1]))
-                if first != second:
+                # (text made from a repr that names a memory address - str(deque([memoryview(b'')])) - differs between two decodes)
+                if first != second and " at 0x" not in json.dumps(first, default=repr) and "2061742030" not in json.dumps(first, default=repr):
                     fails.append((f"later-parse-sees-an-edit-of-an-earlier-result/{_kind_at(spec, out)}", {"first": first, "later": second}))
     return {"status": out[0], "fails": fails, "changed": changed}
 
